@@ -1,6 +1,7 @@
 package main
 
 import (
+	"go/constant"
 	"go/token"
 	"go/types"
 	"sort"
@@ -345,4 +346,141 @@ func sortedFuncs(u *Universe, m map[*ssa.Function][]ssa.CallInstruction) []*ssa.
 	}
 	sort.Slice(fs, func(i, j int) bool { return u.fname(fs[i]) < u.fname(fs[j]) })
 	return fs
+}
+
+// ---------- conditions established directly or through a guard helper
+
+// condPred recognises a branch whose successor #idx establishes the wanted condition about subj (subj may
+// be nil for conditions that have no subject value)
+type condPred func(fn *ssa.Function, ifi *ssa.If, subj ssa.Value) (idx int, ok bool)
+
+// establishedAt: on every path to block `at` of fn the condition holds - because an establishing edge of a
+// recognised test dominates `at`, or because `at` is dominated by the "passed" edge of a call to a static
+// helper (nil error / boolean result) all of whose corresponding returns lie behind such an edge themselves
+func establishedAt(u *Universe, fn *ssa.Function, at *ssa.BasicBlock, subj ssa.Value, pred condPred, depth int) bool {
+	for _, d := range fn.Blocks {
+		if len(d.Instrs) == 0 {
+			continue
+		}
+		ifi, ok := d.Instrs[len(d.Instrs)-1].(*ssa.If)
+		if !ok {
+			continue
+		}
+		if idx, ok := pred(fn, ifi, subj); ok && edgeDominates(d, d.Succs[idx], at) {
+			return true
+		}
+		if depth <= 0 {
+			continue
+		}
+		cond := ifi.Cond
+		neg := false
+		for {
+			un, ok := cond.(*ssa.UnOp)
+			if !ok || un.Op != token.NOT {
+				break
+			}
+			cond, neg = un.X, !neg
+		}
+		switch c := cond.(type) {
+		case *ssa.BinOp:
+			// err != nil / err == nil where err is the error result of a helper call
+			if (c.Op != token.NEQ && c.Op != token.EQL) || !isNilConst(c.Y) || !isErrorType(c.X.Type()) {
+				continue
+			}
+			var call *ssa.Call
+			switch x := c.X.(type) {
+			case *ssa.Call:
+				call = x
+			case *ssa.Extract:
+				call, _ = x.Tuple.(*ssa.Call)
+			}
+			if call == nil {
+				continue
+			}
+			nilIdx := 1
+			if (c.Op == token.EQL) != neg {
+				nilIdx = 0
+			}
+			if !edgeDominates(d, d.Succs[nilIdx], at) {
+				continue
+			}
+			if helperEstablishes(u, call, subj, pred, depth, func(ret *ssa.Return) bool {
+				ev := errorOperand(ret)
+				return ev != nil && !provablyNonNilError(ev)
+			}) {
+				return true
+			}
+		case *ssa.Call:
+			for idx := 0; idx < 2; idx++ {
+				if !edgeDominates(d, d.Succs[idx], at) {
+					continue
+				}
+				want := (idx == 0) != neg // the boolean the helper returned on this edge
+				if helperEstablishes(u, c, subj, pred, depth, func(ret *ssa.Return) bool {
+					if len(ret.Results) != 1 {
+						return true
+					}
+					for _, s := range allSources(retValue(ret, 0)) {
+						k, isK := s.(*ssa.Const)
+						if !isK || k.Value == nil || k.Value.Kind() != constant.Bool || constant.BoolVal(k.Value) == want {
+							return true
+						}
+					}
+					return false
+				}) {
+					return true
+				}
+			}
+		}
+	}
+	return false
+}
+
+func helperEstablishes(u *Universe, call *ssa.Call, subj ssa.Value, pred condPred, depth int, relevant func(*ssa.Return) bool) bool {
+	h := call.Call.StaticCallee()
+	if h == nil || h.Blocks == nil {
+		return false
+	}
+	var subj2 ssa.Value
+	if subj != nil {
+		for i, a := range call.Call.Args {
+			if (a == subj || sameSlice(a, subj)) && i < len(h.Params) {
+				subj2 = h.Params[i]
+			}
+		}
+		if subj2 == nil {
+			return false
+		}
+	}
+	n := 0
+	for _, b := range h.Blocks {
+		ret, ok := b.Instrs[len(b.Instrs)-1].(*ssa.Return)
+		if !ok || !relevant(ret) {
+			continue
+		}
+		n++
+		if !establishedAt(u, h, b, subj2, pred, depth-1) {
+			return false
+		}
+	}
+	return n > 0
+}
+
+// notNilPred: the successor on which subj != nil
+func notNilPred(fn *ssa.Function, ifi *ssa.If, subj ssa.Value) (int, bool) {
+	bo, ok := ifi.Cond.(*ssa.BinOp)
+	if !ok || (bo.Op != token.EQL && bo.Op != token.NEQ) {
+		return 0, false
+	}
+	x, y := bo.X, bo.Y
+	if isNilConst(x) {
+		x, y = y, x
+	}
+	if !isNilConst(y) || x != subj {
+		return 0, false
+	}
+	if bo.Op == token.NEQ {
+		return 0, true
+	}
+	return 1, true
 }
